@@ -9,6 +9,11 @@ Correspondence between the real Perceval code and the Lean model (`Model/C11.lea
              the flipped matrix), and the iteration ranges exactly.
 * perms    : `extend_perm`, `perm_compose`, `reduce_perm`, `invert_permutation` exhaustively on small
              permutations; `PERM.break_in_2_mode_perms` (exact swap sequence) and `decompose_perms` (matrix).
+* nest     : `decompose_perms(circuit, merge)` for BOTH values of merge as the object it returns (driver op
+             `decompnest`, Model/C11Nest.lean): `_components` with one level of nesting against the model's list
+             (nested Circuit(n) of swaps / merged swaps / the empty sub-circuit `Circuit.add` keeps), the iteration
+             against the flattened view; directly: merge=False keeps one component per input component on its range,
+             each sub-circuit with the matrix of its PERM.
 * simplify : every iteration of `simplify` (state after k components = `simplify(first k components)`) is
              checked against the specification step: deterministic branches exactly, the non-successive
              PERM branch by recovering the heuristic's choice from the output and testing `ValidChoice`;
@@ -1296,6 +1301,119 @@ def handle_decompose(chk, case):
     elif not only2:
         chk.fail("violation", "decompose-perms-leftover", "decompose_perms leaves a PERM wider than 2 modes",
                  {"part": "decompose", "case": case})
+    else:
+        res = judge_nest(chk, case, circ, comps)
+        if res is not None:
+            kind, sig, what, small = res
+            chk.fail(kind, sig, what, {"part": "decompose", "case": small})
+
+
+# ---- decompose_perms(circuit, merge) as the OBJECT it returns (Model/C11Nest.lean, driver op `decompnest`): one nested
+# Circuit(n) of swaps per PERM with merge=False, the swaps themselves with merge=True - except the EMPTY sub-circuit of
+# an identity / one-mode PERM, which Circuit.add keeps nested (truthiness test of the sub-circuit's component list)
+def nest_kind(c):
+    from perceval.components import PERM
+    if container_parts(c) is not None:
+        return "circ"
+    return "swap" if isinstance(c, PERM) and [int(x) for x in c.perm_vector] == [1, 0] else "leaf"
+
+
+def nest_shape(out):
+    """the component list of the circuit decompose_perms returned, with one level of nesting"""
+    items = []
+    for r, c in out._components:
+        r = tuple(int(i) for i in r)
+        parts = container_parts(c)
+        if parts is None:
+            items.append({"r0": r[0], "w": len(r), "k": nest_kind(c)})
+        else:
+            items.append({"r0": r[0], "w": len(r),
+                          "circ": [{"r0": int(tuple(r2)[0]), "w": len(tuple(r2)), "k": nest_kind(c2)}
+                                   for r2, c2 in parts[1]]})
+    return items
+
+
+def nest_state(comps):
+    from perceval.components import PERM
+    return [{"r0": int(r[0]), "perm": [int(x) for x in c.perm_vector]} if isinstance(c, PERM)
+            else {"r0": int(r[0]), "leaf": {"barrier": len(r)}} for r, c in comps]
+
+
+def judge_nest(chk, case, circ, comps, count=True):
+    """both values of merge: the object against the model's component list; directly on the real objects: with
+    merge=False every component of the result has the matrix of the input component it stands for"""
+    from perceval.components.comp_utils import decompose_perms
+    from perceval.components import PERM
+    m = case["m"]
+    state = nest_state(comps)
+    reps = chk.lean.ask_many([{"op": "decompnest", "m": m, "merge": mg, "state": state} for mg in (True, False)])
+    for mg, rep in zip((True, False), reps):
+        if "err" in rep:
+            return ("broken", "decompose-nest-model-rejects", f"the model rejects the flattened view: {rep['err']}", case)
+        out = decompose_perms(circ, merge=mg)
+        shape = nest_shape(out)
+        if not mg:
+            # direct oracle, component by component: nothing merged, every PERM replaced by an equivalent sub-circuit
+            if len(shape) != len(comps):
+                return ("violation", "decompose-nest-unmerged-count", f"decompose_perms(merge=False) returns "
+                        f"{len(shape)} components for {len(comps)}", case)
+            for (r, c), (r2, c2) in zip(comps, out._components):
+                if tuple(int(i) for i in r) != tuple(int(i) for i in r2):
+                    return ("violation", "decompose-nest-unmerged-range", f"decompose_perms(merge=False) moves a "
+                            f"component from {tuple(r)} to {tuple(r2)}", case)
+                if isinstance(c, PERM) and not close_np(np_u(c2), np_u(c)):
+                    return ("violation", "decompose-nest-subcircuit-matrix", f"the sub-circuit decompose_perms(merge="
+                            f"False) puts for PERM({[int(x) for x in c.perm_vector]}) has another matrix", case)
+        flat = [[int(tuple(r)[0]), len(tuple(r))] for r, _ in out]
+        if flat != rep["flat"]:
+            return ("broken", "decompose-nest-flat-view", f"decompose_perms(merge={mg}): iteration gives "
+                    f"{flat[:12]}, model {rep['flat'][:12]}", case)
+        if shape != rep["items"]:
+            k = next((i for i, (a, b) in enumerate(zip(shape, rep["items"])) if a != b), min(len(shape), len(rep["items"])))
+            return ("broken", "decompose-nest-shape", f"decompose_perms(merge={mg}): component {k} is "
+                    f"{json.dumps(shape[k] if k < len(shape) else None)[:160]}, model "
+                    f"{json.dumps(rep['items'][k] if k < len(rep['items']) else None)[:160]}", case)
+        if count:
+            empties = [it for it in shape if "circ" in it and not it["circ"]]
+            nested = [it for it in shape if it.get("circ")]
+            chk.branch("decompose-nest-merged" if mg else "decompose-nest-unmerged")
+            if mg and empties:
+                chk.branch("decompose-nest-merged-keeps-empty-circuit")
+            if not mg and empties:
+                chk.branch("decompose-nest-unmerged-empty-circuit")
+            if any(it["w"] == 1 for it in empties):
+                chk.branch("decompose-nest-one-mode-perm")
+            if not mg and any(it["r0"] > 0 and len(it["circ"]) >= 2 for it in nested):
+                chk.branch("decompose-nest-subcircuit-at-offset")
+            if not mg and len(nested) >= 2:
+                chk.branch("decompose-nest-several-subcircuits")
+            if not mg and any(len(st.get("perm", ())) == 2 and "circ" not in it for st, it in zip(state, shape)):
+                chk.branch("decompose-nest-two-mode-perm-kept")
+            if m >= WIDE_MIN and nested:
+                chk.branch("decompose-nest-wide")
+    return None
+
+
+def gen_nest_case(rng, chk):
+    """simplify-style flat circuits rich in the PERMs decompose_perms treats specially: identities on 3+ modes
+    (empty sub-circuit), one-mode and two-mode PERMs, single adjacent transpositions, ordinary ones"""
+    wide = rng.random() < 0.15
+    m = rng.randint(WIDE_MIN, 20) if wide else rng.randint(1, 6)
+    vcount = [0]
+    ops = gen_simp_flat(rng, m, rng.randint(0, 5), vcount) if m >= 2 else []
+    for _ in range(rng.randint(1, 5)):
+        n = rng.randint(1, min(m, 12 if wide else 5))
+        q = rng.random()
+        if q < 0.3:
+            vec = list(range(n))
+        elif q < 0.45 and n >= 2:
+            vec = list(range(n))
+            i = rng.randrange(n - 1)
+            vec[i], vec[i + 1] = vec[i + 1], vec[i]
+        else:
+            vec = gen_perm_vec(rng, n)
+        ops.insert(rng.randint(0, len(ops)), {"off": rng.randint(0, m - n), "leaf": {"t": "PERM", "perm": vec}})
+    return {"m": m, "ops": ops, "display": rng.random() < 0.5, "as_list": False}
 
 
 # ------------------------------------------------------------------------------------------------
@@ -2557,6 +2675,10 @@ def run(chk: core.Check):
         "chain-shared-object", "chain-lone-component", "chain-nested-offset", "chain-describe-rebuilt",
         # the same histories run by the model as ONE mixed history (driver op mchain, nothing read back)
         *[f"mchain-{a}->{b}" for a, b in MCHAIN_PAIRS], "mchain-whole-history", "mchain-two-rebuilds-and-inverse",
+        # the object decompose_perms returns, nesting included (driver op decompnest)
+        "decompose-nest-merged", "decompose-nest-unmerged", "decompose-nest-merged-keeps-empty-circuit",
+        "decompose-nest-unmerged-empty-circuit", "decompose-nest-one-mode-perm", "decompose-nest-subcircuit-at-offset",
+        "decompose-nest-several-subcircuits", "decompose-nest-two-mode-perm-kept", "decompose-nest-wide",
     ]
     chk.lean = core.LeanDriver("C11")
     rng = chk.rng
@@ -2601,6 +2723,9 @@ def run(chk: core.Check):
         if i % 4 == 0:
             run_part(chk, "decompose", case)
     t = timed("perm-runs", t)
+    for _ in range(chk.pick(150, 800)):
+        run_part(chk, "decompose", gen_nest_case(rng, chk))
+    t = timed("decompose-nest", t)
     # histories on one object: every ordered pair of transformations, then free histories
     for pair in CHAIN_PAIRS:
         for _ in range(chk.pick(4, 16)):
